@@ -379,6 +379,28 @@ struct Single {
     size: i64,
 }
 
+/// No fields at all: the only derived object whose empty / blank / default answers are `true`.
+#[derive(ObjectView, ValueView, serde::Serialize, serde::Deserialize, Debug, Clone, PartialEq)]
+struct Empty {}
+
+/// The same shapes through the `liquid_core` spelling of the derives (separate code in the macro crate).
+#[derive(liquid_core::ObjectView, liquid_core::ValueView, serde::Serialize, serde::Deserialize, Debug, Clone, PartialEq)]
+struct CoreLeafs {
+    i: i64,
+    f: f64,
+    b: bool,
+    s: String,
+}
+#[derive(liquid_core::ObjectView, liquid_core::ValueView, serde::Serialize, serde::Deserialize, Debug, Clone, PartialEq)]
+struct CoreNested {
+    inner: CoreLeafs,
+    list: Vec<CoreLeafs>,
+    opt: Option<i64>,
+    size: i64,
+}
+#[derive(liquid_core::ObjectView, liquid_core::ValueView, serde::Serialize, serde::Deserialize, Debug, Clone, PartialEq)]
+struct CoreEmpty {}
+
 #[derive(serde::Serialize, serde::Deserialize, Debug, Clone, PartialEq)]
 enum External {
     Unit,
@@ -438,6 +460,12 @@ fn render_both<T: liquid::ObjectView + serde::Serialize>(report: &Report, parser
     let b = observe(&obj, false);
     if a != b {
         report.violation(&format!("C12|derive|value-view-differs-from-serde-object|{label}"), idx, json!({"kind":"derive","type":label,"derived":a,"serde":b}), format!("derived: {a}; serde: {b}"));
+    }
+    // ... and so does the owned value built from the view (`to_value`), the form `assign` stores
+    match guard(|| observe(&t.as_value().to_value(), false)) {
+        Ok(c) if c != b => report.violation(&format!("C12|derive|to_value-differs-from-serde-object|{label}"), idx, json!({"kind":"derive","type":label,"to_value":c,"serde":b}), format!("to_value: {c}; serde: {b}")),
+        Ok(_) => {}
+        Err(p) => report.violation(&format!("C12|derive|{}", p.sig()), idx, json!({"kind":"derive","type":label}), p.describe()),
     }
     for (pi, tmpl) in templates.iter().enumerate() {
         *n += 1;
@@ -531,6 +559,28 @@ fn derive_family(report: &Report) {
         let x = Single { size: s };
         render_both(report, &parser, &templates, idx, "Single", &x, &mut n, &mut nontriv);
         roundtrip(report, idx, "Single", &x);
+    }
+    idx += 1;
+    render_both(report, &parser, &templates, idx, "Empty", &Empty {}, &mut n, &mut nontriv);
+    roundtrip(report, idx, "Empty", &Empty {});
+    idx += 1;
+    render_both(report, &parser, &templates, idx, "CoreEmpty", &CoreEmpty {}, &mut n, &mut nontriv);
+    roundtrip(report, idx, "CoreEmpty", &CoreEmpty {});
+    for (k, l) in leafs.iter().enumerate() {
+        idx += 1;
+        let c = CoreLeafs { i: l.i, f: l.f, b: l.b, s: l.s.clone() };
+        render_both(report, &parser, &templates, idx, "CoreLeafs", &c, &mut n, &mut nontriv);
+        roundtrip(report, idx, "CoreLeafs", &c);
+        if k % 7 == 0 {
+            for list in [vec![], vec![c.clone()], vec![c.clone(), CoreLeafs { i: -1, f: 0.5, b: false, s: "".into() }]] {
+                for opt in [None, Some(k as i64)] {
+                    idx += 1;
+                    let x = CoreNested { inner: c.clone(), list: list.clone(), opt, size: k as i64 };
+                    render_both(report, &parser, &templates, idx, "CoreNested", &x, &mut n, &mut nontriv);
+                    roundtrip(report, idx, "CoreNested", &x);
+                }
+            }
+        }
     }
     // enums in the four serde shapes, tuples, options, maps: Rust -> Liquid -> Rust
     for e in [External::Unit, External::New(3), External::Tuple(1, "t".into()), External::Struct { a: -1 }] {
